@@ -32,8 +32,7 @@ MUTANTS = [
     {"id": "c02-relaxed-claim", "property": "C02", "expect": "C02.S1|swap_state:success-ordering",
      "edits": [("src/pdu_loop/frame_element/mod.rs", "                Ordering::AcqRel,\n                Ordering::Relaxed,", "                Ordering::Relaxed,\n                Ordering::Relaxed,")]},
     {"id": "c02-mark-before-copy", "property": "C02", "expect": "C02.S4|receive_frame", "also": ["C01"],
-     "edits": [("src/pdu_loop/pdu_rx.rs", "        let frame_data = frame.buf_mut();", "        frame.mark_received()?;\n\n        let frame_data = frame.buf_mut();"),
-               ("src/pdu_loop/pdu_rx.rs", "            .copy_from_slice(i);\n\n        frame.mark_received()?;", "            .copy_from_slice(i);")]},
+     "edits": [("src/pdu_loop/pdu_rx.rs", "        frame_data.copy_from_slice(i);\n\n        frame.mark_received()?;\n", "        frame_data[0] = 0;\n\n        frame.mark_received()?;\n\n        frame.buf_mut()[0..i.len()].copy_from_slice(i);\n")]},
     {"id": "c02-wake-before-cas", "property": "C02", "expect": "C02.S4|mark_received", "also": ["C01"],
      "edits": [("src/pdu_loop/frame_element/receiving_frame.rs", "        self.inner\n            .swap_state(FrameState::RxBusy, FrameState::RxDone)", "        let _ = self.inner.wake();\n\n        self.inner\n            .swap_state(FrameState::RxBusy, FrameState::RxDone)"),
                ("src/pdu_loop/frame_element/receiving_frame.rs", "        let _ = self.inner.wake();\n\n        Ok(())", "        Ok(())")]},
@@ -70,7 +69,7 @@ MUTANTS = [
     {"id": "c06-forever-is-zero", "property": "C06", "expect": "C06.retry_count",
      "edits": [("src/maindevice_config.rs", "RetryBehaviour::Forever => usize::MAX,", "RetryBehaviour::Forever => 0,")]},
     {"id": "c06-retry-without-wake", "property": "C06", "expect": "C06.poll|retry-bookkeeping",
-     "edits": [("src/pdu_loop/frame_element/receiving_frame.rs", "                self.pdu_loop.wake_sender();\n\n                self.retries_left -= 1;", "                self.retries_left -= 1;")]},
+     "edits": [("src/pdu_loop/frame_element/receiving_frame.rs", "                    self.pdu_loop.wake_sender();\n", "")]},
     {"id": "c06-new-store-on-timeout", "property": "C06", "expect": "C06.S7",
      "edits": [("src/pdu_loop/frame_element/receiving_frame.rs", "    fn storage_slot_index(&self) -> u8 {\n        self.inner.storage_slot_index()\n    }\n}\n\npub struct ReceiveFrameFut", "    fn storage_slot_index(&self) -> u8 {\n        self.inner.set_state(FrameState::RxDone);\n        self.inner.storage_slot_index()\n    }\n}\n\npub struct ReceiveFrameFut")]},
     # ---------------- C01 ----------------
@@ -508,7 +507,7 @@ MUTANTS = [
     {"id": "c14-crc-init-0", "property": "C14", "expect": "C14.const|crc-parameters",
      "edits": [("src/eeprom/mod.rs", "    poly: 0x07,\n    init: 0xff,", "    poly: 0x07,\n    init: 0x00,")]},
     {"id": "c14-retry-unbounded", "property": "C14", "expect": "C14.retry|bounded-retry",
-     "edits": [("src/eeprom/device_provider.rs", "if status.command_error && retry_count < 20 {", "if status.command_error {")]},
+     "edits": [("src/eeprom/device_provider.rs", "            if retry_count < 20 {", "            if retry_count < usize::MAX {")]},
     {"id": "c14-checksum-word-6", "property": "C14", "expect": "C14.const|checksum-range",
      "edits": [("src/eeprom/mod.rs", "pub const CHECKSUM_POSITION: core::ops::Range<usize> = 14..16;", "pub const CHECKSUM_POSITION: core::ops::Range<usize> = 12..14;")]},
     {"id": "c14-write-past-end", "property": "C14", "expect": "C14.write|range-write",
@@ -521,10 +520,11 @@ MUTANTS = [
     {"id": "c15-abort-before-emergency", "property": "C15", "expect": "C15.triage|order-and-kinds",
      "edits": [("src/mailbox/coe/mod.rs", "        if headers.command == CoeCommand::Abort {", "        if headers.command == CoeCommand::Abort && headers.header.mailbox_type == MailboxType::Coe {")], "skip": True},
     {"id": "c15-one-counter-for-segments", "property": "C15", "expect": "C15.counter|SdoSegmented::upload",
-     "edits": [("src/mailbox/coe/mod.rs", """                let mut total_len = first_chunk.len();
+     "edits": [("src/mailbox/coe/mod.rs", """                drop(response);
 
                 loop {
-                    let request = SdoSegmented::upload(self.subdevice.mailbox_counter(), toggle);""", """                let mut total_len = first_chunk.len();
+                    let request = SdoSegmented::upload(self.subdevice.mailbox_counter(), toggle);""", """                drop(response);
+
                 let segment_counter = self.subdevice.mailbox_counter();
 
                 loop {
@@ -616,6 +616,55 @@ MUTANTS = [
             }
 """)]},
     # ---------------- neutral (behaviour preserving) edits: must stay silent ----------------
+    {"id": "c06-late-reply-is-error", "property": "C06", "expect": "C06.rx|lookup-found-nothing:ignored-not-error",
+     "edits": [("src/pdu_loop/pdu_rx.rs", """            fmt::trace!("No frame is waiting for PDU {:#04x}, ignoring", pdu_idx);
+
+            return Ok(ReceiveAction::Ignored);""", """            fmt::trace!("No frame is waiting for PDU {:#04x}", pdu_idx);
+
+            return Err(Error::Pdu(crate::error::PduError::Decode));""")]},
+    {"id": "c06-timer-poll-discarded", "property": "C06", "expect": "C06.poll|retry-bookkeeping",
+     "edits": [("src/pdu_loop/frame_element/receiving_frame.rs", "                cx.waker().wake_by_ref();\n", "                let _ = self.timeout_timer.poll(cx);\n")]},
+    {"id": "c06-retry-plain-store", "property": "C06", "expect": "C06.poll|retry-bookkeeping", "also": ["C02"],
+     "edits": [("src/pdu_loop/frame_element/receiving_frame.rs", """                if rxin
+                    .swap_state(FrameState::Sent, FrameState::Sendable)
+                    .is_ok()
+                {
+                    // Wake frame sender so it picks up this frame we've just marked
+                    self.pdu_loop.wake_sender();
+                }""", """                rxin.set_state(FrameState::Sendable);
+                self.pdu_loop.wake_sender();""")]},
+    {"id": "c05-oversize-keeps-claim", "property": "C05", "expect": "C05.S4|receive_frame:claim-resolved-on-every-exit", "also": ["C01"],
+     "edits": [("src/pdu_loop/pdu_rx.rs", """        let Some(frame_data) = frame.buf_mut().get_mut(0..i.len()) else {
+            frame.release_receiving_claim();
+
+            return Err(Error::Internal);
+        };""", """        let Some(frame_data) = frame.buf_mut().get_mut(0..i.len()) else {
+            return Err(Error::Internal);
+        };""")]},
+    {"id": "c16-segment-loop-unbounded", "property": "C16", "expect": "C16.loop|Coe::sdo_read:bounded",
+     "edits": [("src/mailbox/coe/mod.rs", """                    if chunk_len == 0 {
+                        return Err(Error::Internal);
+                    }
+
+""", "")]},
+    {"id": "c16-info-loop-unbounded", "property": "C16", "expect": "C16.loop|Coe::send_sdo_info_service:bounded",
+     "edits": [("src/mailbox/coe/mod.rs", "            responses_left = responses_left.checked_sub(1).ok_or(Error::Internal)?;\n", "            responses_left = responses_left.saturating_sub(1);\n")]},
+    {"id": "c17-raw-latches", "property": "C17", "expect": "C17.wrap|receive-times-rebased",
+     "edits": [("src/subdevice/ports.rs", "                port.dc_receive_time = port.dc_receive_time.wrapping_sub(earliest);", "                let _ = earliest;")]},
+    {"id": "c17-direct-parent-times", "property": "C17", "expect": "C17.chain|measured-from-dc-capable-upstream",
+     "edits": [("src/dc.rs", "        if parent.dc_support().any() {\n            break parent;\n        }", "        if true {\n            break parent;\n        }")]},
+    {"id": "c18-sync1-u64", "property": "C18", "expect": "C18.cfg|range-check:sync1_period",
+     "edits": [("src/subdevice_group/mod.rs", "                let sync1_period = u64::from(u32::try_from(sync1_period.as_nanos())?);", "                let sync1_period = u64::try_from(sync1_period.as_nanos())?;")]},
+    {"id": "c14-retry-exhaustion-ok", "property": "C14", "expect": "C14.retry|bounded-retry",
+     "edits": [("src/eeprom/device_provider.rs", "                break Err(Error::Timeout(TimeoutError::Eeprom));", "                let _ = TimeoutError::Eeprom;\n\n                break Ok(());")]},
+    {"id": "c14-count-padded-word", "property": "C14", "expect": "C14.write|range-write",
+     "edits": [("src/eeprom/mod.rs", "            written += buf.len() - rest.len();", "            written += word.len();")]},
+    {"id": "c20-hold-initiate-response", "property": "C20", "expect": "C20.slots|sdo_read:initiate-response-released-before-segments",
+     "edits": [("src/mailbox/coe/mod.rs", "                drop(response);\n\n", "")]},
+    {"id": "c19-tuple-index", "property": "C19", "expect": "C19.np",
+     "edits": [("ethercrab-wire/src/impls.rs", """                            buf = buf
+                                .get($name::PACKED_LEN..)
+                                .ok_or(WireError::ReadBufferTooShort)?;""", """                            buf = &buf[$name::PACKED_LEN..];""")]},
     {"id": "n-c05-rename-awaiting-helper", "property": "C05", "neutral": True, "also": ["C01", "C20"],
      "edits": [("src/pdu_loop/frame_element/mod.rs", "unsafe fn is_awaiting_response(", "unsafe fn is_sent(", ),
                ("src/pdu_loop/storage.rs", "FrameElement::<0>::is_awaiting_response(frame)", "FrameElement::<0>::is_sent(frame)")]},
@@ -856,7 +905,7 @@ MUTANTS = [
     {"id": "c01-no-revalidation", "property": "C01", "expect": "C01.S4|receive_frame:marker-revalidated-after-claim", "also": ["C20"],
      "edits": [("src/pdu_loop/pdu_rx.rs", "        if !frame.first_pdu_is(pdu_idx) {", "        if false && !frame.first_pdu_is(pdu_idx) {")]},
     {"id": "c01-wrong-claim-dropped", "property": "C01", "expect": "C01.S4|receive_frame:marker-revalidated-after-claim",
-     "edits": [("src/pdu_loop/pdu_rx.rs", "            frame.release_receiving_claim();\n\n", "")]},
+     "edits": [("src/pdu_loop/pdu_rx.rs", "            frame.release_receiving_claim();\n\n            return Ok(ReceiveAction::Ignored);", "            return Ok(ReceiveAction::Ignored);")]},
     {"id": "c03-mark-sent-store", "property": "C03", "expect": "C03.tx|conditional:SendableFrame::mark_sent->Sent", "also": ["C06", "C02"],
      "edits": [("src/pdu_loop/frame_element/sendable_frame.rs", """        let _ = self
             .inner
